@@ -204,6 +204,11 @@ static void run_search(Rng &r)
     // ---- array API
     size_t max_ports = children->size() + 3 + (size_t)r.below(4);
     size_t max_args = max_ports * 2 + 2, max_types = max_args + 1;
+    // exactly as many slots as there are matching children (plus the echoed query): the documented minimum
+    {
+        size_t all = 0; for(auto &c : *children) if(c.name.compare(0, needle.size(), needle) == 0) ++all;
+        if(all && r.chance(0.25)) { max_ports = all + (with_query ? 1 : 0); max_args = max_ports * 2; max_types = max_args + 1; count("search.exact_fit_arrays"); }
+    }
     std::vector<char> types(max_types, 'Z');
     std::vector<rtosc_arg_t> args(max_args);
     rtosc::path_search(root, loc.c_str(), needle.c_str(), types.data(), max_types, args.data(), max_args, opt, with_query);
